@@ -146,6 +146,21 @@ CLAIMED = {
              '77053b5, d468104. No axioms.',
         technique='Coq proof: positional parser lemmas (skipn cursor) composed field by field; differential correspondence on generated PDUs incl. malformed stream',
         design='6 (C03)'),
+    'C04': dict(
+        text='Coq theorems (Props/C04.v) relating the executable model of pdu()/from_pdu to Spec/Smpp34.v, a transcription of SMPP 3.4 sections 3.2, '
+             '4.x, 5.1.2.1 and 5.3.2 written independently of the code: command ids and the supported set, every row (tag, kind, width) of the optional-'
+             'parameter table, TLV bytes for every row and in-range value, the byte layout of every class (header, mandatory-field order and widths, '
+             'C-octet termination, sm_length, message_payload and optional parameters) for whatever the encoder produces, and that the data_coding sent '
+             'is one under which the text bytes decode to the text supplied (GSM, IA5, Latin-1, UCS2; from the C10 round-trip theorem). Decoding: '
+             'specification PDUs of the responses (body present or omitted), bind responses (with/without sc_interface_version, body omitted) and binds '
+             'decode to the values they were built from; 8- and 16-bit concatenation headers decode to (ref, total, seq). For foreign submit_sm/deliver_sm '
+             'the decision is the oracle + model tie: PDUs built by an independent encoder (harness/smppref.py) are fed to the real parse_header/from_pdu '
+             'and to the model; the real pdu() bytes are compared octet by octet with the independent encoder.',
+        note='Trusted: Coq kernel, Spec/Smpp34.v and smppref.py as transcriptions of the standard, translator, harness. PARTIAL: no theorem yet for the '
+             'decoder on an arbitrary specification submit_sm/deliver_sm body (TLV permutations); that part rests on the correspondence runs. Proved '
+             'for the code after fixes 7dca4fc, d468104, 0c64b68 (bind response without body), 5ac7354 (final zero octet of Octet String TLVs). No axioms.',
+        technique='Coq proof: refinement of the model encoder to an independent specification layout + table sweeps; differential check against an independent reference encoder/decoder',
+        design='6 (C04)'),
 }
 
 PENDING_REASON = 'check not built yet in this round (planned, see DESIGN.md section 6); not claimed until its proof and correspondence run exist'
